@@ -821,3 +821,648 @@ Theorem sim_compact_pick (sp : stp) (sf : stf) :
   | _, _ => False
   end.
 Proof. intros Hs. apply (compact_pick_rel idx_rel chain_ops flat_ops idx_rel_empty P sp sf Hs). Qed.
+
+(* ---- Items ---- *)
+End Sim.
+
+Definition kv_of {I} (d : @DB.disk I) (sl : slot) : key * val :=
+  match read_kv d sl with Some kv => kv | None => ([], []) end.
+
+Lemma read_slots_all {I} (d : @DB.disk I) l :
+  (forall sl, In sl l -> read_kv d sl <> None) -> read_slots d l = Some (map (kv_of d) l).
+Proof.
+  induction l as [|sl l IH]; intros H; [reflexivity|]. cbn [read_slots map].
+  rewrite IH by (intros x Hx; apply H; right; exact Hx).
+  destruct (read_kv d sl) as [kv|] eqn:E.
+  - replace (kv_of d sl) with kv by (unfold kv_of; rewrite E; reflexivity). reflexivity.
+  - exfalso. apply (H sl); [left; reflexivity|exact E].
+Qed.
+
+(* a full scan when every slot is readable: the buckets in order *)
+Lemma db_items_scan {I} (ops : idx_ops I) (s : @DB.st I) m :
+  s_mem s = Some m ->
+  (forall n sl, In sl (ix_bucket ops (m_idx m) n) -> read_kv (s_disk s) sl <> None) ->
+  db_items ops s =
+  OItems (concat (map (fun n => map (kv_of (s_disk s)) (ix_bucket ops (m_idx m) n))
+                      (nseq 0 (N.to_nat (ix_nbuckets ops (m_idx m)))))).
+Proof.
+  intros E H. unfold db_items. rewrite E. cbv zeta.
+  generalize (nseq 0 (N.to_nat (ix_nbuckets ops (m_idx m)))). intros bs.
+  induction bs as [|n bs IH]; [reflexivity|].
+  cbn [map concat]. rewrite IH. unfold fetch_bucket. rewrite E.
+  rewrite (read_slots_all _ _ (H n)). reflexivity.
+Qed.
+
+Lemma nseq_seq a n : nseq (N.of_nat a) n = map N.of_nat (seq a n).
+Proof.
+  revert a. induction n as [|n IH]; intros a; [reflexivity|]. cbn [nseq seq map]. f_equal.
+  replace (N.of_nat a + 1) with (N.of_nat (S a)) by lia. apply IH.
+Qed.
+
+Lemma concat_map_map {A B C} (f : B -> C) (g : A -> list B) l :
+  concat (map (fun n => map f (g n)) l) = map f (concat (map g l)).
+Proof. rewrite concat_map, map_map. reflexivity. Qed.
+
+Lemma chain_scan_all p : concat (map (px_bucket p) (nseq 0 (N.to_nat (px_nbuckets p)))) = all_slots p.
+Proof.
+  unfold px_nbuckets. rewrite <- length_nlen. change 0 with (N.of_nat 0). rewrite nseq_seq.
+  apply px_iter_all.
+Qed.
+
+(* outputs up to the order of an Items listing *)
+Definition out_equiv (a b : out) : Prop :=
+  match a, b with
+  | OItems l1, OItems l2 => Permutation l1 l2
+  | _, _ => a = b
+  end.
+
+Lemma out_equiv_refl a : out_equiv a a.
+Proof. destruct a; cbn; reflexivity. Qed.
+
+Section Sim2.
+Variable P : params.
+
+Lemma sim_items_open (sp : stp) (sf : stf) :
+  st_rel sp sf -> Inv P sf -> s_mem sf <> None ->
+  exists lp lf, db_items chain_ops sp = OItems lp /\ db_items flat_ops sf = OItems lf /\ Permutation lp lf.
+Proof.
+  intros Hs HI Hopen.
+  destruct (st_rel_mem_cases _ _ _ Hs) as [[E1 E2]|(mp & mf & E1 & E2 & Hm)]; [congruence|].
+  destruct (Inv_open P sf mf E2 HI) as (_ & (Hok & _ & _) & _).
+  destruct (mem_rel_idx _ _ _ Hm) as (HPI & HPerm & _).
+  assert (Hrd : forall sl, In sl (m_idx mf) -> read_kv (s_disk sf) sl <> None).
+  { intros sl Hsl. pose proof (proj1 (Forall_forall _ _) Hok sl Hsl) as Ok.
+    destruct (slot_ok_read P _ _ _ Ok) as (r & _ & _ & _ & _ & _ & Er & _). congruence. }
+  exists (map (kv_of (s_disk sf)) (all_slots (m_idx mp))), (map (kv_of (s_disk sf)) (m_idx mf) ++ []).
+  split; [|split].
+  - rewrite (db_items_scan chain_ops sp mp E1).
+    + cbn [ix_bucket ix_nbuckets chain_ops]. rewrite concat_map_map, chain_scan_all. f_equal.
+      apply map_ext. intros sl. unfold kv_of. rewrite (read_kv_rel _ _ _ sl (st_rel_disk _ _ _ Hs)). reflexivity.
+    + intros n sl Hsl. rewrite (read_kv_rel _ _ _ sl (st_rel_disk _ _ _ Hs)). apply Hrd.
+      eapply Permutation_in; [exact HPerm|]. cbn [ix_bucket chain_ops] in Hsl.
+      rewrite px_bucketE in Hsl. exact (px_chain_in_all _ _ _ Hsl).
+  - rewrite (db_items_scan flat_ops sf mf E2).
+    + cbn [ix_bucket ix_nbuckets flat_ops]. reflexivity.
+    + intros n sl Hsl. cbn [ix_bucket flat_ops] in Hsl. destruct (n =? 0); [apply Hrd; exact Hsl|destruct Hsl].
+  - rewrite app_nil_r. apply Permutation_map. exact HPerm.
+Qed.
+
+Theorem sim_items (sp : stp) (sf : stf) :
+  st_rel sp sf -> Inv P sf -> out_equiv (db_items chain_ops sp) (db_items flat_ops sf).
+Proof.
+  intros Hs HI. destruct (s_mem sf) as [mf|] eqn:E2.
+  - destruct (sim_items_open sp sf Hs HI) as (lp & lf & -> & -> & HP); [congruence|exact HP].
+  - destruct (st_rel_mem_cases _ _ _ Hs) as [[E1 _]|(mp & mf & _ & E2' & _)]; [|congruence].
+    unfold db_items. rewrite E1, E2. reflexivity.
+Qed.
+
+(* ---- one critical section of Compact ---- *)
+End Sim2.
+
+(* writeRecord never changes the index value held in memory (any index implementation) *)
+Lemma seal_idx {I} (ops : idx_ops I) id s m : m_idx (snd (seal ops id s m)) = m_idx m.
+Proof. unfold seal. destruct (find_mseg id (m_segs m)) as [g|]; [destruct (sm_full (g_meta g))|]; reflexivity. Qed.
+
+Lemma swap_idx {I} (ops : idx_ops I) s m : m_idx (snd (swap_segment ops s m)) = m_idx m.
+Proof. unfold swap_segment. destruct (find _ (m_segs m)); reflexivity. Qed.
+
+Lemma gprelude_idx {I} (ops : idx_ops I) P r s m : m_idx (snd (gprelude ops P r s m)) = m_idx m.
+Proof.
+  unfold gprelude. destruct (cur_seg m) as [g|].
+  - destruct (sm_full (g_meta g) || (p_maxseg P <? g_size g + rsize r)); [|reflexivity].
+    pose proof (seal_idx ops (g_id g) s m) as H. destruct (seal ops (g_id g) s m) as [s0 m0].
+    cbn [snd] in H. rewrite swap_idx. exact H.
+  - apply swap_idx.
+Qed.
+
+Lemma gtail_idx {I} (ops : idx_ops I) r s1 m1 s' m' id off :
+  gtail ops r s1 m1 = Some (s', m', id, off) -> m_idx m' = m_idx m1.
+Proof.
+  unfold gtail. destruct (cur_seg m1) as [g|]; [|discriminate].
+  destruct (find_dseg (g_id g) (s_disk s1)) as [f|]; [|discriminate].
+  destruct (negb ((f_seq f =? g_seq g) && (flen f =? g_size g))); [discriminate|].
+  cbv zeta. intros H. injection H as _ <- _ _. reflexivity.
+Qed.
+
+Lemma write_record_idx {I} (ops : idx_ops I) P r s m s' m' id off :
+  write_record ops P r s m = Some (s', m', id, off) -> m_idx m' = m_idx m.
+Proof.
+  rewrite write_record_g. pose proof (gprelude_idx ops P r s m) as H.
+  destruct (gprelude ops P r s m) as [s1 m1]. cbn [snd] in H. intros E.
+  rewrite (gtail_idx _ _ _ _ _ _ _ _ E). exact H.
+Qed.
+
+Inductive cstep_rel : @cstep pindex -> @cstep flat -> Prop :=
+| cr_done : cstep_rel CDone CDone
+| cr_more sp sf c : st_rel sp sf -> cstep_rel (CMore sp c) (CMore sf c)
+| cr_fail w : cstep_rel (CFail w) (CFail w).
+
+Section Sim3.
+Variable P : params.
+
+(* the only fact about the flat state that a compaction step needs: two slots of the flat index
+   never point to the same record *)
+Theorem sim_compact_step_gen (sp : stp) (sf : stf) c :
+  st_rel sp sf -> (forall mf, s_mem sf = Some mf -> points_uniq (m_idx mf)) ->
+  cstep_rel (compact_step chain_ops P sp c) (compact_step flat_ops P sf c).
+Proof.
+  intros Hs HU. unfold compact_step.
+  destruct (st_rel_mem_cases _ _ _ Hs) as [[E1 E2]|(mp & mf & E1 & E2 & Hm)]; rewrite E1, E2; [constructor|].
+  specialize (HU mf E2).
+  destruct (c_src c) as [[[id seq] off]|].
+  - rewrite (find_dseg_rel _ _ _ id (st_rel_disk _ _ _ Hs)).
+    destruct (find_dseg id (s_disk sf)) as [f|]; [|constructor].
+    destruct (rec_at off (seg_entries f)) as [r|].
+    + cbv zeta. destruct (rdel r); [constructor; exact Hs|].
+      rewrite (mem_rel_seed _ _ _ Hm). cbn [ix_repoint chain_ops flat_ops].
+      set (h := p_hash P (m_seed mf) (rk r)).
+      pose proof (repoint_rel (m_idx mp) (m_idx mf) h id (u32 off) id (u32 off)
+                    (mem_rel_idx _ _ _ Hm) (HU _ _ _)) as R1.
+      destruct (px_repoint (m_idx mp) h id (u32 off) id (u32 off)) as [ip|];
+        destruct (fl_repoint (m_idx mf) h id (u32 off) id (u32 off)) as [jf|]; inversion R1; subst.
+      * pose proof (write_record_rel idx_rel chain_ops flat_ops idx_rel_empty P r sp sf mp mf Hs Hm) as Hw.
+        destruct (write_record chain_ops P r sp mp) as [[[[s1p m1p] idp] offp]|];
+          destruct (write_record flat_ops P r sf mf) as [[[[s1f m1f] idf] offf]|] eqn:Ewf;
+          unfold wr_rel in Hw; try contradiction; [|constructor].
+        destruct Hw as (Hs1 & Hm1 & -> & ->).
+        assert (U1 : points_uniq (m_idx m1f)) by (rewrite (write_record_idx _ _ _ _ _ _ _ _ _ Ewf); exact HU).
+        pose proof (repoint_rel (m_idx m1p) (m_idx m1f) h id (u32 off) idf offf
+                      (mem_rel_idx _ _ _ Hm1) (U1 _ _ _)) as R2.
+        destruct (px_repoint (m_idx m1p) h id (u32 off) idf offf) as [i2p|];
+          destruct (fl_repoint (m_idx m1f) h id (u32 off) idf offf) as [i2f|]; inversion R2; subst;
+          [|constructor].
+        constructor. apply with_mem_rel.
+        -- apply emit_rel; [exact idx_rel_empty|exact Hs1|constructor; assumption].
+        -- apply set_idx_rel; assumption.
+      * constructor. exact Hs.
+    + destruct (negb ((flen f =? off) && (f_seq f =? seq))); [constructor|].
+      constructor. apply remove_segment_rel; [exact idx_rel_empty|exact Hs|exact Hm].
+  - destruct (c_todo c) as [|[id seq] todo]; [constructor|]. cbv zeta. constructor.
+    apply with_mem_rel; [exact Hs|]. rewrite (mem_rel_segs _ _ _ Hm). apply set_msegs_rel. exact Hm.
+Qed.
+
+Theorem sim_compact_step (sp : stp) (sf : stf) c :
+  st_rel sp sf -> Inv P sf ->
+  cstep_rel (compact_step chain_ops P sp c) (compact_step flat_ops P sf c).
+Proof.
+  intros Hs HI. apply sim_compact_step_gen; [exact Hs|]. intros mf E2.
+  destruct (Inv_open P sf mf E2 HI) as (_ & Hidx & _). exact (uniq_points P _ _ _ Hidx).
+Qed.
+
+End Sim3.
+
+(* ================================================================================================ *)
+(** * 4. The theorems of the flat instantiation, transferred to the chain index *)
+
+Lemma sdel_absent m k : sget m k = None -> sdel m k = m.
+Proof.
+  induction m as [|[k' v] m IH]; [reflexivity|]. cbn [sget sdel].
+  destruct (key_eqb k k'); [discriminate|]. intros H. rewrite (IH H). reflexivity.
+Qed.
+
+(* Put / Delete of the flat database change [abs] exactly as the specification map changes *)
+Lemma flat_put_abs P (s : stf) k v :
+  params_ok P -> Inv P s -> (exists m, s_mem s = Some m /\ room m) ->
+  Forall byte k -> Forall byte v -> nlen k <= max_key_len -> nlen v <= max_val_len ->
+  exists s', db_put flat_ops P k v s = (s', OOk) /\ Inv P s' /\ s_mem s' <> None /\
+             abs (s_disk s') = sput (abs (s_disk s)) k v.
+Proof.
+  intros HP HI Hm Hbk Hbv Hk Hv.
+  destruct (put_ok_ex P s k v HP HI Hm Hbk Hbv Hk Hv)
+    as (s' & E & HI' & Hm' & _ & id & seq & off & pre & i2 & post & _ & _ & _ & _ & Eo & _).
+  exists s'. split; [exact E|]. split; [exact HI'|]. split; [exact Hm'|].
+  rewrite (abs_snoc _ _ _ Eo). reflexivity.
+Qed.
+
+Lemma del_found_bytes P seed idx (d : diskf) k i1 o :
+  DiskOK d -> idx_agrees P seed idx d ->
+  fl_del idx (p_hash P seed k) (matchf d k) = (i1, Some o) -> Forall byte k.
+Proof.
+  intros Hd Hidx E. pose proof Hidx as (Hok & Hnd & _). rewrite (fl_del_hit P seed idx d k Hd Hok) in E.
+  destruct (fl_remove (khit (slot_key d) k) idx) as [[l' o']|] eqn:Er; [|discriminate].
+  inversion E; subst i1 o'. destruct (fl_remove_Some _ _ _ _ _ Hnd Er) as (A1 & A2 & _).
+  pose proof (proj1 (Forall_forall _ _) Hok o A1) as Ho.
+  destruct (slot_ok_read P d seed o Ho) as (r & Er' & _ & _ & _ & _ & _ & Ek).
+  pose proof (rec_of_rec_fits d _ _ r Hd Er') as (Hb & _). rewrite <- A2, Ek. exact Hb.
+Qed.
+
+(* Delete accepts ANY key (no [Forall byte k]): a key that is not a byte string is absent *)
+Lemma flat_delete_abs P (s : stf) k :
+  params_ok P -> Inv P s -> (exists m, s_mem s = Some m /\ room m) ->
+  exists s', db_delete flat_ops P k s = (s', OOk) /\ Inv P s' /\ s_mem s' <> None /\
+             abs (s_disk s') = sdel (abs (s_disk s)) k.
+Proof.
+  intros HP HI (m & Em & Hroom).
+  destruct (Inv_open P s m Em HI) as (HL & Hidx & _). assert (Hd : DiskOK (s_disk s)) by apply HL.
+  destruct (fl_del (m_idx m) (p_hash P (m_seed m) k) (matchf (s_disk s) k)) as [i1 [o|]] eqn:Edel.
+  - pose proof (del_found_bytes P _ _ _ k i1 o Hd Hidx Edel) as Hbk.
+    destruct (delete_ok_ex P s k HP HI (ex_intro _ m (conj Em Hroom)) Hbk)
+      as (s' & E & HI' & Hm' & _ & _ & [(Habs & Ed & _)|(_ & _ & id & seq & off & pre & i & post & _ & _ & _ & _ & Eo & _)]).
+    + exists s'. split; [exact E|]. split; [exact HI'|]. split; [exact Hm'|].
+      rewrite Ed, (sdel_absent _ _ Habs). reflexivity.
+    + exists s'. split; [exact E|]. split; [exact HI'|]. split; [exact Hm'|].
+      rewrite (abs_snoc _ _ _ Eo). reflexivity.
+  - destruct (del_absent P _ _ _ k i1 Hd Hidx Edel) as [-> Habs].
+    destruct (finish_spec P s m) as (s' & Ef & Ems' & Eds' & _).
+    exists s'. unfold db_delete. rewrite Em. cbn [ix_del flat_ops]. rewrite Edel.
+    split; [exact Ef|]. split; [apply (Inv_same P s); [congruence|exact Eds'|exact HI]|].
+    split; [congruence|]. rewrite Eds', (sdel_absent _ _ Habs). reflexivity.
+Qed.
+
+Section Chain.
+Variable P : params.
+
+Theorem chain_get_ok (sp : stp) (sf : stf) k :
+  st_rel sp sf -> Inv P sf -> s_mem sf <> None ->
+  db_get chain_ops P k sp = OVal (sget (abs (s_disk sf)) k).
+Proof. intros Hs HI Hm. rewrite (sim_get P sp sf k Hs HI). apply get_ok; assumption. Qed.
+
+Theorem chain_get_append_ok (sp : stp) (sf : stf) k buf :
+  st_rel sp sf -> Inv P sf -> s_mem sf <> None ->
+  db_get_append chain_ops P k buf sp = OVal (option_map (fun v => buf ++ v) (sget (abs (s_disk sf)) k)).
+Proof. intros Hs HI Hm. rewrite (sim_get_append P sp sf k buf Hs HI). apply get_append_ok; assumption. Qed.
+
+Theorem chain_has_ok (sp : stp) (sf : stf) k :
+  st_rel sp sf -> Inv P sf -> s_mem sf <> None ->
+  db_has chain_ops P k sp = OBool (shas (abs (s_disk sf)) k).
+Proof. intros Hs HI Hm. rewrite (sim_has P sp sf k Hs HI). apply has_ok; assumption. Qed.
+
+Theorem chain_count_ok (sp : stp) (sf : stf) :
+  st_rel sp sf -> Inv P sf -> s_mem sf <> None ->
+  db_count chain_ops sp = ONum (scount (abs (s_disk sf))).
+Proof. intros Hs HI Hm. rewrite (sim_count sp sf Hs). apply (count_ok P); assumption. Qed.
+
+Theorem chain_items_ok (sp : stp) (sf : stf) :
+  st_rel sp sf -> Inv P sf -> s_mem sf <> None ->
+  exists l, db_items chain_ops sp = OItems l /\ Permutation l (abs (s_disk sf)).
+Proof.
+  intros Hs HI Hm. destruct (sim_items_open P sp sf Hs HI Hm) as (lp & lf & Ep & Ef & HP).
+  destruct (items_ok P sf HI Hm) as (l & El & Hl). exists lp. split; [exact Ep|].
+  rewrite HP. assert (lf = l) by congruence. subst lf. exact Hl.
+Qed.
+
+Theorem chain_put_ok (sp : stp) (sf : stf) k v :
+  params_ok P -> st_rel sp sf -> Inv P sf -> (exists m, s_mem sf = Some m /\ room m) ->
+  Forall byte k -> Forall byte v -> nlen k <= max_key_len -> nlen v <= max_val_len ->
+  let '(sp', o) := db_put chain_ops P k v sp in
+  let sf' := fst (db_put flat_ops P k v sf) in
+  o = OOk /\ st_rel sp' sf' /\ Inv P sf' /\ s_mem sf' <> None /\
+  abs (s_disk sf') = sput (abs (s_disk sf)) k v.
+Proof.
+  intros HP Hs HI Hm Hbk Hbv Hk Hv.
+  pose proof (sim_put_so P sp sf k v Hs HI Hm Hbk Hbv Hk Hv) as [Ho Hs'].
+  destruct (flat_put_abs P sf k v HP HI Hm Hbk Hbv Hk Hv) as (sf' & E & HI' & Hm' & Ea).
+  rewrite E in Ho, Hs' |- *. cbn [fst snd] in Ho, Hs' |- *.
+  destruct (db_put chain_ops P k v sp) as [sp' o]. cbn [fst snd] in Ho, Hs'. cbv zeta. auto.
+Qed.
+
+Theorem chain_delete_ok (sp : stp) (sf : stf) k :
+  params_ok P -> st_rel sp sf -> Inv P sf -> (exists m, s_mem sf = Some m /\ room m) ->
+  let '(sp', o) := db_delete chain_ops P k sp in
+  let sf' := fst (db_delete flat_ops P k sf) in
+  o = OOk /\ st_rel sp' sf' /\ Inv P sf' /\ s_mem sf' <> None /\
+  abs (s_disk sf') = sdel (abs (s_disk sf)) k.
+Proof.
+  intros HP Hs HI Hm.
+  pose proof (sim_delete_so P sp sf k Hs HI) as [Ho Hs'].
+  destruct (flat_delete_abs P sf k HP HI Hm) as (sf' & E & HI' & Hm' & Ea).
+  rewrite E in Ho, Hs' |- *. cbn [fst snd] in Ho, Hs' |- *.
+  destruct (db_delete chain_ops P k sp) as [sp' o]. cbn [fst snd] in Ho, Hs'. cbv zeta. auto.
+Qed.
+
+Theorem chain_sync_ok (sp : stp) (sf : stf) :
+  st_rel sp sf -> Inv P sf -> s_mem sf <> None ->
+  let '(sp', o) := db_sync chain_ops sp in
+  let sf' := fst (db_sync flat_ops sf) in
+  o = OOk /\ st_rel sp' sf' /\ Inv P sf' /\ s_disk sf' = s_disk sf /\ s_mem sf' = s_mem sf.
+Proof.
+  intros Hs HI Hm. pose proof (sync_rel idx_rel chain_ops flat_ops idx_rel_empty sp sf Hs) as [Ho Hs'].
+  pose proof (sync_ok P sf HI Hm) as Hf.
+  destruct (db_sync flat_ops sf) as [sf' of]. destruct (db_sync chain_ops sp) as [sp' o].
+  cbn [fst snd] in Ho, Hs' |- *. cbv zeta. destruct Hf as (-> & A & B & C). auto.
+Qed.
+
+End Chain.
+
+(* ================================================================================================ *)
+(** * 5. Runs: the chain-index database refines the specification map *)
+
+Inductive op :=
+| OpPut (k : key) (v : val) | OpDelete (k : key) | OpGet (k : key) | OpGetAppend (k : key) (buf : bytes)
+| OpHas (k : key) | OpCount | OpItems | OpSync.
+
+Definition step {I} (ops : idx_ops I) (P : params) (s : @DB.st I) (o : op) : @DB.st I * out :=
+  match o with
+  | OpPut k v => db_put ops P k v s
+  | OpDelete k => db_delete ops P k s
+  | OpGet k => (s, db_get ops P k s)
+  | OpGetAppend k buf => (s, db_get_append ops P k buf s)
+  | OpHas k => (s, db_has ops P k s)
+  | OpCount => (s, db_count ops s)
+  | OpItems => (s, db_items ops s)
+  | OpSync => db_sync ops s
+  end.
+Definition step_chain (P : params) : stp -> op -> stp * out := step chain_ops P.
+Definition step_flat (P : params) : stf -> op -> stf * out := step flat_ops P.
+
+(* the specification: a plain map; Items returns the map itself *)
+Definition step_spec (m : smap) (o : op) : smap * out :=
+  match o with
+  | OpPut k v => (sput m k v, OOk)
+  | OpDelete k => (sdel m k, OOk)
+  | OpGet k => (m, OVal (sget m k))
+  | OpGetAppend k buf => (m, OVal (option_map (fun v => buf ++ v) (sget m k)))
+  | OpHas k => (m, OBool (shas m k))
+  | OpCount => (m, ONum (scount m))
+  | OpItems => (m, OItems m)
+  | OpSync => (m, OOk)
+  end.
+
+Fixpoint run {S} (stepf : S -> op -> S * out) (s : S) (l : list op) : list out :=
+  match l with
+  | [] => []
+  | o :: l' => let '(s', r) := stepf s o in r :: run stepf s' l'
+  end.
+
+(* Put arguments are byte strings within the size limits (a Put outside of them is rejected by the
+   database, the plain map would accept it); every other operation takes any argument *)
+Definition op_valid (o : op) : Prop :=
+  match o with
+  | OpPut k v => Forall byte k /\ Forall byte v /\ nlen k <= max_key_len /\ nlen v <= max_val_len
+  | _ => True
+  end.
+
+(* the 32-bit offset side condition (DBInv.room) holds in every state the FLAT run goes through
+   (this also says that the database is open) *)
+Inductive rooms (P : params) : stf -> list op -> Prop :=
+| rooms_nil s : rooms P s []
+| rooms_cons s o l :
+    (exists m, s_mem s = Some m /\ room m) -> rooms P (fst (step_flat P s o)) l -> rooms P s (o :: l).
+
+Lemma step_refines P (sp : stp) (sf : stf) o :
+  params_ok P -> st_rel sp sf -> Inv P sf -> op_valid o -> (exists m, s_mem sf = Some m /\ room m) ->
+  st_rel (fst (step_chain P sp o)) (fst (step_flat P sf o)) /\
+  Inv P (fst (step_flat P sf o)) /\
+  abs (s_disk (fst (step_flat P sf o))) = fst (step_spec (abs (s_disk sf)) o) /\
+  out_equiv (snd (step_chain P sp o)) (snd (step_spec (abs (s_disk sf)) o)).
+Proof.
+  intros HP Hs HI Hv Hroom.
+  assert (Hopen : s_mem sf <> None) by (destruct Hroom as (m & -> & _); discriminate).
+  unfold step_chain, step_flat. destruct o as [k v|k|k|k buf|k| | |]; cbn [step step_spec fst snd].
+  - destruct Hv as (Hbk & Hbv & Hk & Hvl).
+    pose proof (chain_put_ok P sp sf k v HP Hs HI Hroom Hbk Hbv Hk Hvl) as H.
+    destruct (db_put chain_ops P k v sp) as [sp' o]. cbv zeta in H. cbn [fst snd].
+    destruct H as (-> & A & B & _ & C). repeat split; assumption.
+  - pose proof (chain_delete_ok P sp sf k HP Hs HI Hroom) as H.
+    destruct (db_delete chain_ops P k sp) as [sp' o]. cbv zeta in H. cbn [fst snd].
+    destruct H as (-> & A & B & _ & C). repeat split; assumption.
+  - rewrite (chain_get_ok P sp sf k Hs HI Hopen). repeat split; assumption.
+  - rewrite (chain_get_append_ok P sp sf k buf Hs HI Hopen). repeat split; assumption.
+  - rewrite (chain_has_ok P sp sf k Hs HI Hopen). repeat split; assumption.
+  - rewrite (chain_count_ok P sp sf Hs HI Hopen). repeat split; assumption.
+  - destruct (chain_items_ok P sp sf Hs HI Hopen) as (l & -> & Hl). repeat split; assumption.
+  - pose proof (chain_sync_ok P sp sf Hs HI Hopen) as H.
+    destruct (db_sync chain_ops sp) as [sp' o]. cbv zeta in H. cbn [fst snd].
+    destruct H as (-> & A & B & C & _). rewrite C. repeat split; assumption.
+Qed.
+
+(* C01 for the real index: for every hash function, split policy, thresholds and sync mode, the
+   outputs of any run of valid operations on the chain-index database are the outputs of the plain
+   map (Items up to order), as long as the offsets fit in 32 bits *)
+Theorem C01_chain_refines_map P (sp : stp) (sf : stf) (l : list op) :
+  params_ok P -> st_rel sp sf -> Inv P sf -> Forall op_valid l -> rooms P sf l ->
+  Forall2 out_equiv (run (step_chain P) sp l) (run step_spec (abs (s_disk sf)) l).
+Proof.
+  intros HP. revert sp sf. induction l as [|o l IH]; intros sp sf Hs HI Hv Hr; cbn [run]; [constructor|].
+  inversion Hv as [|? ? Hvo Hvl]; subst. inversion Hr as [|? ? ? Hro Hrl]; subst.
+  destruct (step_refines P sp sf o HP Hs HI Hvo Hro) as (A & B & C & D).
+  destruct (step_chain P sp o) as [sp' rp]. destruct (step_spec (abs (s_disk sf)) o) as [ms' rs].
+  cbn [fst snd] in A, C, D. constructor; [exact D|]. rewrite <- C. apply IH; assumption.
+Qed.
+
+(* the same with the states: relation, invariant and abstraction along the run *)
+Theorem chain_run_states P (sp : stp) (sf : stf) (l : list op) :
+  params_ok P -> st_rel sp sf -> Inv P sf -> Forall op_valid l -> rooms P sf l ->
+  let sp' := fold_left (fun s o => fst (step_chain P s o)) l sp in
+  let sf' := fold_left (fun s o => fst (step_flat P s o)) l sf in
+  st_rel sp' sf' /\ Inv P sf' /\
+  abs (s_disk sf') = fold_left (fun m o => fst (step_spec m o)) l (abs (s_disk sf)).
+Proof.
+  intros HP. revert sp sf. induction l as [|o l IH]; intros sp sf Hs HI Hv Hr; cbn [fold_left]; [auto|].
+  inversion Hv as [|? ? Hvo Hvl]; subst. inversion Hr as [|? ? ? Hro Hrl]; subst.
+  destruct (step_refines P sp sf o HP Hs HI Hvo Hro) as (A & B & C & D).
+  rewrite <- C. apply IH; assumption.
+Qed.
+
+(* ================================================================================================ *)
+(** * 6. The initial states: Open on an empty directory *)
+
+Definition st0 {I} : @DB.st I := {| s_mem := None; s_disk := disk0; s_trace := [] |}.
+
+(* the state of the flat database after Open on an empty directory, written out *)
+Definition flat_init (seed : N) : stf :=
+  {| s_mem := Some {| m_segs := [{| g_id := 0; g_seq := 1; g_size := 512; g_meta := smeta0 |}];
+                      m_cur := (0, 1); m_cur_removed := false; m_maxseq := 1; m_idx := [];
+                      m_seed := seed |};
+     s_disk := {| d_segs := [{| f_id := 0; f_seq := 1; f_hdr := true; f_recs := []; f_tail := [];
+                               f_meta := GAbsent |}];
+                  d_orphans := []; d_index := Some []; d_overflow := true; d_imeta := GAbsent;
+                  d_dbmeta := GAbsent; d_lock := true; d_bac := [] |};
+     s_trace := [ECreate FLock; ECreate FMain; EHeader FMain; ECreate FOverflow; EHeader FOverflow;
+                 ETrunc FMain 1024; EIndex []; ECreate (FSeg 0 1); EHeader (FSeg 0 1)] |}.
+
+Lemma flat_open_fresh P seed : db_open flat_ops P seed st0 = (flat_init seed, OOpened false).
+Proof. vm_compute. reflexivity. Qed.
+
+Lemma flat_init_Inv P seed : Inv P (flat_init seed).
+Proof.
+  unfold Inv, flat_init. cbn [s_mem s_disk].
+  split; [|split; [|split; [|split; [|split; [|split; [|split; [|split]]]]]]].
+  - split; [|split].
+    + constructor; [|constructor]. unfold dseg_ok. cbn [f_recs f_tail f_hdr].
+      split; [constructor|]. split; [exact tail_stuck_nil|]. split; [constructor|].
+      split; [discriminate|]. vm_compute. reflexivity.
+    + cbn [d_segs map f_id]. constructor; [intros []|constructor].
+    + cbn [d_segs map f_seq]. constructor; [intros []|constructor].
+  - split.
+    + intros g [<-|[]]. eexists. split; [left; reflexivity|]. repeat split.
+    + intros f [<-|[]]. eexists. split; [left; reflexivity|]. split; reflexivity.
+  - cbn [m_segs ids_increasing]. split; [intros g' []|exact I].
+  - split.
+    + intros g [<-|[]]. cbn [g_seq m_maxseq]. lia.
+    + intros g g' [<-|[]] [<-|[]] _. cbn [g_seq]. lia.
+  - intros _. eexists. split; [left; reflexivity|]. split; reflexivity.
+  - split; [constructor|]. split; [constructor|]. intros k. reflexivity.
+  - reflexivity.
+  - reflexivity.
+  - reflexivity.
+Qed.
+
+Lemma flat_init_room seed : exists m, s_mem (flat_init seed) = Some m /\ room m.
+Proof.
+  eexists. split; [reflexivity|]. intros g [<-|[]]. vm_compute. reflexivity.
+Qed.
+
+Lemma flat_init_abs seed : abs (s_disk (flat_init seed)) = [].
+Proof. reflexivity. Qed.
+
+(* Open on an empty directory: both databases open, the states are related, the flat one satisfies
+   the invariant and the side condition, and the contents are empty *)
+Theorem init_rel P seed :
+  let '(sp, op) := db_open chain_ops P seed st0 in
+  let '(sf, of) := db_open flat_ops P seed st0 in
+  op = OOpened false /\ of = OOpened false /\ st_rel sp sf /\ Inv P sf /\
+  (exists m, s_mem sf = Some m /\ room m) /\ abs (s_disk sf) = [].
+Proof.
+  rewrite flat_open_fresh.
+  set (a := db_open chain_ops P seed st0). vm_compute in a. subst a. cbv beta iota.
+  split; [reflexivity|]. split; [reflexivity|].
+  split; [|split; [apply flat_init_Inv|split; [apply flat_init_room|reflexivity]]].
+  unfold flat_init. constructor.
+  - constructor. constructor. exact idx_rel_empty.
+  - constructor; [constructor; exact idx_rel_empty|constructor].
+  - repeat first [exact idx_rel_empty | constructor].
+Qed.
+
+(* hence: any run of valid operations on a freshly opened chain-index database behaves like the
+   plain map started empty *)
+Corollary C01_chain_from_empty P seed (l : list op) :
+  params_ok P -> Forall op_valid l -> rooms P (flat_init seed) l ->
+  Forall2 out_equiv (run (step_chain P) (fst (db_open chain_ops P seed st0)) l) (run step_spec [] l).
+Proof.
+  intros HP Hv Hr. pose proof (init_rel P seed) as H. rewrite flat_open_fresh in H.
+  destruct (db_open chain_ops P seed st0) as [sp o]. destruct H as (_ & _ & Hs & HI & _ & Ea).
+  cbn [fst]. rewrite <- Ea. apply C01_chain_refines_map; assumption.
+Qed.
+
+(* ================================================================================================ *)
+(** * 7. Executable side conditions, and a concrete non-vacuity example *)
+
+Definition op_valid_b (o : op) : bool :=
+  match o with
+  | OpPut k v => forallb (fun b => b <? 256) k && forallb (fun b => b <? 256) v &&
+                 (nlen k <=? max_key_len) && (nlen v <=? max_val_len)
+  | _ => true
+  end.
+
+Lemma forallb_byte l : forallb (fun b => b <? 256) l = true -> Forall byte l.
+Proof.
+  intros H. apply Forall_forall. intros x Hx. unfold byte. apply N.ltb_lt.
+  exact (proj1 (forallb_forall _ _) H x Hx).
+Qed.
+
+Lemma op_valid_b_ok o : op_valid_b o = true -> op_valid o.
+Proof.
+  destruct o as [k v|k|k|k buf|k| | |]; cbn [op_valid_b op_valid]; try (intros _; exact I).
+  rewrite !andb_true_iff. intros [[[A B] C] D].
+  split; [apply forallb_byte; exact A|]. split; [apply forallb_byte; exact B|].
+  split; [apply N.leb_le; exact C|apply N.leb_le; exact D].
+Qed.
+
+Lemma ops_valid_b_ok l : forallb op_valid_b l = true -> Forall op_valid l.
+Proof.
+  intros H. apply Forall_forall. intros o Ho. apply op_valid_b_ok.
+  exact (proj1 (forallb_forall _ _) H o Ho).
+Qed.
+
+Lemma room_b_ok (m : memf) : room_b m = true -> room m.
+Proof.
+  unfold room_b, room. intros H g Hg. apply N.ltb_lt. exact (proj1 (forallb_forall _ _) H g Hg).
+Qed.
+
+Fixpoint rooms_b (P : params) (s : stf) (l : list op) : bool :=
+  match l with
+  | [] => true
+  | o :: l' => match s_mem s with Some m => room_b m | None => false end &&
+               rooms_b P (fst (step_flat P s o)) l'
+  end.
+
+Lemma rooms_b_ok P l : forall s, rooms_b P s l = true -> rooms P s l.
+Proof.
+  induction l as [|o l IH]; intros s H; [constructor|]. cbn [rooms_b] in H.
+  apply andb_true_iff in H. destruct H as [A B]. constructor; [|apply IH; exact B].
+  destruct (s_mem s) as [m|]; [|discriminate]. exists m. split; [reflexivity|apply room_b_ok; exact A].
+Qed.
+
+Module SimEx.
+(* every key has the same 32-bit hash; the index never splits: all slots live in ONE chain *)
+Definition exP : params :=
+  {| p_maxseg := 1000000; p_minseg := 0; p_frag := fun _ _ => false; p_sync := false;
+     p_grow := fun _ _ => false; p_hash := fun _ _ => 7 |}.
+
+Definition key_of (i : nat) : key := [N.of_nat i].
+Definition val_of (i : nat) : val := [N.of_nat i; N.of_nat i].
+
+(* 40 colliding keys, then key 3 is deleted: the head bucket (31 slots) gets a hole, 9 slots live in
+   an overflow bucket *)
+Definition ex_ops : list op := map (fun i => OpPut (key_of i) (val_of i)) (seq 1 40) ++ [OpDelete (key_of 3)].
+(* ... then a new key: it goes into the hole of the head bucket, i.e. BEFORE slots 32..40 in chain
+   scan order, while the flat list appends it at the end *)
+Definition ex_ops2 : list op := ex_ops ++ [OpPut (key_of 41) (val_of 41)].
+
+Definition exp0 : stp := fst (db_open chain_ops exP 1 st0).
+Definition exf0 : stf := flat_init 1.
+Definition exp : stp := fold_left (fun s o => fst (step_chain exP s o)) ex_ops exp0.
+Definition exf : stf := fold_left (fun s o => fst (step_flat exP s o)) ex_ops exf0.
+Definition exp2 : stp := fold_left (fun s o => fst (step_chain exP s o)) ex_ops2 exp0.
+Definition exf2 : stf := fold_left (fun s o => fst (step_flat exP s o)) ex_ops2 exf0.
+
+Definition chain_shape (s : stp) : list (list nat) :=
+  match s_mem s with Some m => map (map (@length slot)) (px_chains (m_idx m)) | None => [] end.
+Definition chain_slots (s : stp) : list slot :=
+  match s_mem s with Some m => all_slots (m_idx m) | None => [] end.
+Definition flat_slots (s : stf) : list slot :=
+  match s_mem s with Some m => m_idx m | None => [] end.
+
+(* one chain: head bucket with a hole (30 of 31 slots), overflow bucket with 9 slots *)
+Example ex_shape : chain_shape exp = [[30; 9]]%nat.
+Proof. vm_compute. reflexivity. Qed.
+Example ex_shape2 : chain_shape exp2 = [[31; 9]]%nat.
+Proof. vm_compute. reflexivity. Qed.
+
+Lemma exP_ok : params_ok exP.
+Proof. vm_compute. reflexivity. Qed.
+
+(* the hypotheses of the run theorems hold for these runs *)
+Lemma ex_rel0 : st_rel exp0 exf0 /\ Inv exP exf0.
+Proof.
+  pose proof (init_rel exP 1) as H. rewrite flat_open_fresh in H. unfold exp0, exf0.
+  destruct (db_open chain_ops exP 1 st0) as [sp o]. cbn [fst]. tauto.
+Qed.
+
+Example ex_rel : st_rel exp exf /\ Inv exP exf.
+Proof.
+  destruct ex_rel0 as [H0 I0].
+  destruct (chain_run_states exP exp0 exf0 ex_ops exP_ok H0 I0) as (A & B & _).
+  - apply ops_valid_b_ok. vm_compute. reflexivity.
+  - apply rooms_b_ok. vm_compute. reflexivity.
+  - split; assumption.
+Qed.
+
+Example ex_rel2 : st_rel exp2 exf2 /\ Inv exP exf2.
+Proof.
+  destruct ex_rel0 as [H0 I0].
+  destruct (chain_run_states exP exp0 exf0 ex_ops2 exP_ok H0 I0) as (A & B & _).
+  - apply ops_valid_b_ok. vm_compute. reflexivity.
+  - apply rooms_b_ok. vm_compute. reflexivity.
+  - split; assumption.
+Qed.
+
+(* the relation is not the identity: after the 41st Put the chain scan order and the flat list
+   differ (they are permutations of each other by [ex_rel2]) *)
+Example ex_same_order : chain_slots exp = flat_slots exf.
+Proof. vm_compute. reflexivity. Qed.
+Example ex_other_order : chain_slots exp2 <> flat_slots exf2 /\ length (chain_slots exp2) = 40%nat.
+Proof. split; [vm_compute; discriminate|vm_compute; reflexivity]. Qed.
+
+(* the two databases and the plain map answer alike *)
+Definition ex_queries : list op :=
+  [OpGet (key_of 3); OpGet (key_of 32); OpGet (key_of 41); OpHas (key_of 2); OpCount;
+   OpPut (key_of 32) (val_of 5); OpGet (key_of 32); OpCount; OpDelete (key_of 99); OpSync].
+Example ex_outputs :
+  run (step_chain exP) exp2 ex_queries = run (step_flat exP) exf2 ex_queries /\
+  run (step_chain exP) exp2 ex_queries =
+    [OVal None; OVal (Some (val_of 32)); OVal (Some (val_of 41)); OBool true; ONum 40;
+     OOk; OVal (Some (val_of 5)); ONum 40; OOk; OOk].
+Proof. split; vm_compute; reflexivity. Qed.
+End SimEx.
